@@ -34,7 +34,11 @@ STMTS = [
     '{ x = y; }', '{ }', 'goto L2;', 'assert(x < 1);', 'assume(x < 1);', 'x = -1;', 'x = +y;', 'x = --y;', 'typedef int T;',
     'switch (x) { case 1: y = z; break; default: y = 1; }', 'x = y == z;', 'x = y && z;', 'x = &y;', 'x = s.f;',
 ]
-CONDS = ['x < y', 'x = y + z', 'x++ < 10', '(x = y)', 'f(x)', 'x', '--x', 'x < y++', 'x == (y = 1)', '!x', 'x < 10']
+CONDS = ['x < y', 'x = y + z', 'x++ < 10', '(x = y)', 'f(x)', 'x', '--x', 'x < y++', 'x == (y = 1)', '!x', 'x < 10',
+         # an effect below every kind of expression node
+         '!(x = y)', '!(x++ > 10)', '-(x = y * z) < z', '~(x = y)', '(int)(x = y)', 'x < (int)y++', 'f(x++)', 'f(g(x = y))',
+         'a[x++]', 'a[x] < (y = 1)', 'x ? y++ : z', '(x ? y : z) < 1', '(x++, y)', 'sizeof(x++)', '*p++', 'p->q < (x = 1)',
+         '&x == (y = z, p)', '-x < +y', '!(-x)', 'sizeof(x) < y', '(int)x < (long)y']
 
 
 def wrap(stmt, where):
